@@ -1,5 +1,7 @@
 """Seeded generator of Engine-B plans: DAG shape, how each edge is embedded in the parameters, exit codes,
 tokens, duplicates, re-submissions, successive runs of the experiment, foreign token activity."""
+import random
+
 from xvengine.planrun import EMBED_O, EMBED_T, SINGLE
 
 
@@ -163,6 +165,14 @@ def gen_plan(rng, prof):
                     d["how"] = "explicit"
                     d.pop("carrier", None)
                     d.pop("up_cls", None)
+    # single-run plans: now and then a job whose process ends with status 0 without leaving the success marker
+    # (a body calling os._exit(0)); the exit status of a child process is what decides DONE.  Own random stream, so
+    # that the other choices of the plan stay what they were.
+    if not runs:
+        r2 = random.Random(rng.getrandbits(32) ^ 0x5EED)
+        ok = [j for j in jobs if j["codes"] == [0]]
+        if ok and r2.random() < 0.2:
+            r2.choice(ok)["nomarker"] = True
     plan = {"jobs": jobs, "tokens": tokens, "runs": runs + [run]}
     if tokens and rng.random() < prof.foreign:
         t0 = tokens[0]["total"]
@@ -186,6 +196,8 @@ def plan_features(plan):
             f.add("fail")
         if len(j["codes"]) > 1:
             f.add("resubmit")
+        if j.get("nomarker"):
+            f.add("exit0-without-marker")
     if len(plan["runs"]) > 1:
         f.add("multirun:" + plan["runs"][0]["end"])
     if any(r.get("clean_before") for r in plan["runs"]):
